@@ -27,7 +27,8 @@ def make_opts(rng: random.Random) -> GenOpts:
         n_externs=(0, 4), n_enums=(0, 3), n_interfaces=(0, 4), n_events=(0, 5),
         n_formals=(0, 4), n_components=(0, 3), n_systems=(0, 2), n_foreigns=(0, 2),
         n_subints=(0, 3), n_provides=(0, 3), n_requires=(0, 3), n_injected=(0, 2),
-        noise=rng.choice([0.0, 0.7, 1.0]), global_component=0.3)
+        noise=rng.choice([0.0, 0.7, 1.0]), global_component=0.3,
+        name_families=rng.choice([0.15, 0.4, 0.7]))
 
 
 def build_case(seed: int, stream: int) -> dict:
